@@ -47,9 +47,9 @@ class UFTranslator(Translator):
         return v
 
 
-def mk_tr(ctx, phsp_name="", **kw):
+def mk_tr(ctx, phsp_name="", congruent=False, **kw):
     opaque = OPAQUE_PHSP if phsp_name in OPAQUE_PHSP else ()
-    return UFTranslator(ctx, branch_by_solver=True, name_classes=NAME_CLASSES, opaque_classes=opaque, **kw)
+    return UFTranslator(ctx, branch_by_solver=True, name_classes=NAME_CLASSES, opaque_classes=() if congruent else opaque, uf_classes=opaque if congruent else (), **kw)
 
 
 # --------------------------------------------------------------------------- width normalisation
@@ -62,10 +62,10 @@ def cfg_width(config, tier, seed):
     m0, G0 = sp.symbols("m0 Gamma0", positive=True)
     ma, mb = sp.symbols("m_a m_b", nonnegative=True)
     d = sp.Symbol("d", positive=True)
-    tr0 = mk_tr(ctx, phsp_name)
+    tr0 = mk_tr(ctx, phsp_name, congruent=True)
     zm0, za, zb = (tr0(x).real_term_nodiv() for x in (m0, ma, mb))
     ctx.assume(zm0 > za + zb)
-    tr = mk_tr(ctx, phsp_name, symbol_values={**tr0.symbol_values, s: tr0(m0) * tr0(m0)})
+    tr = mk_tr(ctx, phsp_name, congruent=True, symbol_values={**tr0.symbol_values, s: tr0(m0) * tr0(m0)})
     tr.symbols_seen.update(tr0.symbols_seen)
     width = dyn.EnergyDependentWidth(s, m0, G0, ma, mb, L, d, phsp_factor=X)
     obs = identity_obligations("Gamma(m0^2)==Gamma0", tr(width), tr(G0))
@@ -239,13 +239,11 @@ def worker(config, tier, seed):
 def configs(tier):
     out = []
     Ls = (0, 1, 2, 4, 7) if tier == "quick" else tuple(range(11))
-    width_phsp = ("UF", "PhaseSpaceFactor", "PhaseSpaceFactorAbs") if tier == "quick" else ("UF", *REAL_PHSP, *OPAQUE_PHSP)
+    width_phsp = ("UF", "PhaseSpaceFactor", "PhaseSpaceFactorAbs", *OPAQUE_PHSP) if tier == "quick" else ("UF", *REAL_PHSP, *OPAQUE_PHSP)
     for L in Ls:
         for ph in width_phsp:
             if tier == "quick" and ph != "UF" and L not in (1, 2):
                 continue
-            if ph in OPAQUE_PHSP and L > 4:
-                continue  # opaque phase-space nodes with high-degree form factors: replay points hit log singularities
             out.append({"name": f"width:L={L}:{ph}", "kind": "width", "L": L, "phsp": ph})
     for L in range(0, 11) if tier == "thorough" else (0, 1, 2, 3, 5, 7, 10):
         out.append({"name": f"blatt-weisskopf:L={L}", "kind": "bw", "L": L})
